@@ -36,7 +36,7 @@ pub fn gen_scn_k(rng: &mut Prng, tier: Tier, k_cap: u32) -> Scn {
     let thorough = tier == Tier::Thorough;
     let k_max = if thorough { 9 } else { *rng.pick(&[6u32, 6, 7, 7, 8, 9]) };
     let k_max = k_max.min(k_cap);
-    let spec = gen_spec(rng, GenOpts { k_min: 4, k_max, allow_phases: true });
+    let spec = gen_spec(rng, GenOpts { k_min: 4, k_max, allow_phases: true, max_rot: 2 });
     let n_proofs = *rng.pick(&[1usize, 1, 1, 2, 2, 3, 4]);
     let witnesses = (0..n_proofs).map(|_| gen_witness(rng, &spec)).collect();
     let nb_committed = rng.usize(spec.n_instance.min(2) + 1);
